@@ -35,6 +35,9 @@ P = {
  "C18": dict(level="proof", tech="whole-module effect analysis: forward taint propagation over SSA def-use from the address of every package-level variable (mod-set of globals), parameter read-only summaries with CHA for interface calls, external-callee allowlist, import and go-statement scan",
    text="The schedule quantifier is discharged by a whole-program absence-of-shared-writable-state argument: no function other than package initialisers can write any package-level variable or publish a reference to one, every external callee is stateless or internally synchronised, and no goroutines/sync/unsafe are used; instances with disjoint heaps then cannot interfere (Go memory model). Every function of the module is analysed, reachable or not.",
    note="Trusted: go/ssa; completeness of the reference-derivation rules in tool/rules/effects.go; the standard-library allowlist; io.Writer contract; sentinel error values are immutable; buffers the caller shares between instances are the caller's responsibility.", ref="4 C18"),
+ "C09": dict(level="proof", tech="struct layout from go/types (encoding/binary sizes, sequential offsets, rom tags), SSA structural rules on the two reflection walkers (induction variable, skip predicate, byte order, Field(i).Addr()), abstract interpretation with exact gated terms of ReadHeader's version logic and of ROM.ReadHeader/WriteHeader/NewROM windows",
+   text="Round-trip follows from a partition of the 80 header bytes into fixed-size little-endian fields read and written by walkers that are shown, structurally, to visit the same fields in the same order with the same byte order; offsets and tags are computed from the type, the version table and the zeroing set are decided for all header contents by restricting gated terms to the four cases, and the ROM windows are exact slices. Nothing depends on sampled header contents.",
+   note="Trusted base: encoding/binary and reflect behave as documented; go/types sizes for fixed-width integers; absint. HeaderOffset is the value NewROM establishes.", ref="4 C09"),
 }
 reasons_pending = "no check is registered for this property at this commit (machinery not built yet); see DESIGN.md section 4 for the planned static rules"
 
